@@ -525,6 +525,11 @@ class ExecCore(object):
             if isinstance(ty, Ty.TTuple):
                 return ('const', [SV(sel_L(st, va(itv.term))[i], t) for i, t in enumerate(ty.ts)])
             return ('seq', sel_L(st, va(itv.term)), ty.t, [])
+        if isinstance(ty, Ty.TInst):
+            from .state import class_seq, GHOSTS
+            cs = class_seq(ty.cls)
+            if cs:
+                return ('seq', GHOSTS[cs[0]][0](itv.term), cs[1], [])
         if isinstance(ty, (Ty.TDict, Ty.TSet)):
             a = va(itv.term)
             ks = fresh('keys', SeqVal)
@@ -582,42 +587,55 @@ class ExecCore(object):
         for lab, text in invs:
             g = self.spec_bool(st, text)
             self.oblige(st, g, 'inv-init[%s]@loop#%d' % (lab, k), 'inv-init')
-        # 2. havoc what the body may change
+        # 2.-4. with the static types of the locals the body assigns widened to a fixpoint (a local that is None at entry and
+        #       gets an object inside the loop is Opt(object) afterwards, not None)
         body_nodes = s.body
-        h = st.copy()
-        self.havoc_for_loop(h, body_nodes + [getattr(s, '_s', s).target], lspec)
-        h.env[sname] = SeqHolder(seq, elty)
-        ivar = fresh(iname, IntS)
-        h.env[iname] = SV(VInt(ivar), Ty.INT)
-        h.assume(And(0 <= ivar, ivar <= z3.Length(seq)))
-        for lab, text in invs:
-            h.assume(self.spec_bool(h, text))
-        # 3. one arbitrary iteration
-        b = h.copy().assume(ivar < z3.Length(seq), 'f')
-        b.trace.append('loop#%d:body' % k)
-        if self.feasible(b):
-            item = SV(seq[ivar], elty)
-            b.assume(shape(b, item.term, elty))
-            ns, rs = self.assign_loop_target(s, item, ivar, b)
-            outs.extend(rs)
-            for b1 in ns:
-                for o in self.exec_block(s.body, b1):
-                    if o.kind in ('normal', 'continue'):
-                        e = o.st
-                        e.env[iname] = SV(VInt(ivar + 1), Ty.INT)
-                        e.env[sname] = SeqHolder(seq, elty)
-                        for lab, text in invs:
-                            self.oblige(e, self.spec_bool(e, text), 'inv-keep[%s]@loop#%d' % (lab, k), 'inv-keep')
-                        if lspec.get('modifies') is not None:
-                            self.loop_frame_obligations(h, e, lspec['modifies'], k)
-                        if lspec.get('list_unchanged', True) and isinstance(Ty.strip_opt(itv.ty), Ty.TList):
-                            self.oblige(e, sel_L(e, va(itv.term)) == seq, 'inv-keep[iterated-list-unchanged]@loop#%d' % k,
-                                        'inv-keep')
-                    elif o.kind == 'break':
-                        o.st.env.pop(iname, None)
-                        outs.append(Outcome('normal', o.st))
-                    else:
-                        outs.append(o)
+        widen = {}
+        base_outs = list(outs)
+        for _round in range(5):
+            mark = len(self.obligations)
+            outs = list(base_outs)
+            ends = []
+            h = st.copy()
+            self.havoc_for_loop(h, body_nodes + [getattr(s, '_s', s).target], lspec, widen)
+            h.env[sname] = SeqHolder(seq, elty)
+            ivar = fresh(iname, IntS)
+            h.env[iname] = SV(VInt(ivar), Ty.INT)
+            h.assume(And(0 <= ivar, ivar <= z3.Length(seq)))
+            for lab, text in invs:
+                h.assume(self.spec_bool(h, text))
+            # 3. one arbitrary iteration
+            b = h.copy().assume(ivar < z3.Length(seq), 'f')
+            b.trace.append('loop#%d:body' % k)
+            if self.feasible(b):
+                item = SV(seq[ivar], elty)
+                b.assume(shape(b, item.term, elty))
+                ns, rs = self.assign_loop_target(s, item, ivar, b)
+                outs.extend(rs)
+                for b1 in ns:
+                    for o in self.exec_block(s.body, b1):
+                        if o.kind in ('normal', 'continue'):
+                            e = o.st
+                            ends.append(e)
+                            e.env[iname] = SV(VInt(ivar + 1), Ty.INT)
+                            e.env[sname] = SeqHolder(seq, elty)
+                            for lab, text in invs:
+                                self.oblige(e, self.spec_bool(e, text), 'inv-keep[%s]@loop#%d' % (lab, k), 'inv-keep')
+                            if lspec.get('modifies') is not None:
+                                self.loop_frame_obligations(h, e, lspec['modifies'], k)
+                            if lspec.get('list_unchanged', True) and isinstance(Ty.strip_opt(itv.ty), Ty.TList):
+                                self.oblige(e, sel_L(e, va(itv.term)) == seq, 'inv-keep[iterated-list-unchanged]@loop#%d' % k,
+                                            'inv-keep')
+                        elif o.kind == 'break':
+                            o.st.env.pop(iname, None)
+                            outs.append(Outcome('normal', o.st))
+                        else:
+                            outs.append(o)
+            more = self.widen_loop_types(h, ends, body_nodes + [getattr(s, '_s', s).target], widen)
+            if not more:
+                break
+            widen.update(more)
+            del self.obligations[mark:]
         # 4. exit by exhaustion
         x = h.copy().assume(ivar == z3.Length(seq), 'f')
         x.trace.append('loop#%d:done' % k)
@@ -627,6 +645,25 @@ class ExecCore(object):
             else:
                 outs.append(Outcome('normal', x))
         return outs
+
+    def widen_loop_types(self, head, ends, nodes, widen):
+        """-> {local: wider static type} when some iteration end gives a local a type its loop-head type does not cover"""
+        more = {}
+        for nm in assigned_names(nodes):
+            if self.contract and nm in self.contract.local_types:
+                continue
+            hv = head.env.get(nm)
+            hty = hv.ty if isinstance(hv, SV) else None
+            j = hty
+            for e in ends:
+                ev = e.env.get(nm)
+                if isinstance(ev, SV):
+                    j = Ty.join(j, ev.ty) if j is not None else ev.ty
+            if j is not None and hty is not None and j != hty and not compat_types(j, hty):
+                more[nm] = j
+            elif hty is None and j is not None and nm not in widen:
+                pass        # first bound inside the loop: not live at the head
+        return more
 
     def bounded_for(self, s, st, view, k):
         """refutation mode: the loop is unrolled K times (sequence length <= K is a recorded side constraint), so
@@ -731,12 +768,14 @@ class ExecCore(object):
                 outs.append(Outcome('normal', c))
         return outs
 
-    def havoc_for_loop(self, st, nodes, lspec):
+    def havoc_for_loop(self, st, nodes, lspec, widen=None):
         names = assigned_names(nodes)
         for nm in sorted(names):
             old = st.env.get(nm)
             lt = self.contract.local_types.get(nm) if self.contract else None
-            ty = lt or (old.ty if old is not None else None)
+            # the static type of a local after the loop is the join of its type at entry and of what the body assigns
+            # (found by the fixpoint in widen_loop_types); a type declared in the contract's local_types is an annotation
+            ty = lt or (widen or {}).get(nm) or (old.ty if old is not None and not isinstance(old, SeqHolder) else None)
             if ty is None:
                 st.env.pop(nm, None)
                 continue
@@ -867,27 +906,39 @@ class ExecCore(object):
         outs = []
         for lab, text in invs:
             self.oblige(st, self.spec_bool(st, text), 'inv-init[%s]@loop#%d' % (lab, k), 'inv-init')
-        h = st.copy()
-        self.havoc_for_loop(h, s.body + [s.test], lspec)
-        for lab, text in invs:
-            h.assume(self.spec_bool(h, text))
-        normals, raises = self.ev(s.test, h)
-        outs.extend(raises)
-        for n, v in normals:
-            t, f = self.fork(n, truthy(n, v), 'while#%d' % k)
-            if t is not None:
-                for o in self.exec_block(s.body, t):
-                    if o.kind in ('normal', 'continue'):
-                        for lab, text in invs:
-                            self.oblige(o.st, self.spec_bool(o.st, text), 'inv-keep[%s]@loop#%d' % (lab, k), 'inv-keep')
-                        if lspec.get('modifies') is not None:
-                            self.loop_frame_obligations(h, o.st, lspec['modifies'], k)
-                    elif o.kind == 'break':
-                        outs.append(Outcome('normal', o.st))
-                    else:
-                        outs.append(o)
-            if f is not None:
-                outs.extend(self.exec_block(s.orelse, f) if s.orelse else [Outcome('normal', f)])
+        widen = {}
+        base_outs = list(outs)
+        for _round in range(5):
+            mark = len(self.obligations)
+            outs = list(base_outs)
+            ends = []
+            h = st.copy()
+            self.havoc_for_loop(h, s.body + [s.test], lspec, widen)
+            for lab, text in invs:
+                h.assume(self.spec_bool(h, text))
+            normals, raises = self.ev(s.test, h)
+            outs.extend(raises)
+            for n, v in normals:
+                t, f = self.fork(n, truthy(n, v), 'while#%d' % k)
+                if t is not None:
+                    for o in self.exec_block(s.body, t):
+                        if o.kind in ('normal', 'continue'):
+                            ends.append(o.st)
+                            for lab, text in invs:
+                                self.oblige(o.st, self.spec_bool(o.st, text), 'inv-keep[%s]@loop#%d' % (lab, k), 'inv-keep')
+                            if lspec.get('modifies') is not None:
+                                self.loop_frame_obligations(h, o.st, lspec['modifies'], k)
+                        elif o.kind == 'break':
+                            outs.append(Outcome('normal', o.st))
+                        else:
+                            outs.append(o)
+                if f is not None:
+                    outs.extend(self.exec_block(s.orelse, f) if s.orelse else [Outcome('normal', f)])
+            more = self.widen_loop_types(h, ends, s.body + [s.test], widen)
+            if not more:
+                break
+            widen.update(more)
+            del self.obligations[mark:]
         return outs
 
     # ------------------------------------------------------------------ try / with
@@ -1022,6 +1073,15 @@ class _ItemsFor(object):
 
     def __getattr__(self, name):
         return getattr(self._s, name)
+
+
+def compat_types(a, b):
+    """is static type a already covered by b?"""
+    if a == b or isinstance(b, Ty.TAny):
+        return True
+    if isinstance(b, Ty.TOpt):
+        return isinstance(a, Ty.TNone) or compat_types(a, b.t)
+    return False
 
 
 class _EnumFor(object):
